@@ -75,6 +75,19 @@ def analyse(fn, accepted):
     sp = [p['name'] for p in fn.param_info if p.get('t', '').replace(' ', '') == 'int*']
     succ = sp[0] if sp else None
 
+    # small lookup strings (`static const char units[] = "BbKkMm"`), for `p = strchr(units, ch)` classifications
+    lit = {}
+    for t in fn.sites():
+        if t.ev['k'] == 'decl' and t.ev.get('var') and isinstance(t.ev.get('init'), dict) and t.ev['init'].get('k') == 'str' and len(t.ev['init'].get('v', '')) <= 32:
+            lit[t.ev['var']] = t.ev['init']['v']
+
+    def table_of(e):
+        if isinstance(e, dict) and e.get('k') == 'str' and len(e.get('v', '')) <= 32:
+            return e['v']
+        if is_var(e) and e['name'] in lit:
+            return lit[e['name']]
+        return None
+
     def subject(e, st):
         """(state', True) if e denotes the examined character (refreshing it when a new character is read)"""
         if is_var(e) and e['name'] in st.H:
@@ -165,6 +178,9 @@ def analyse(fn, accepted):
         c = const_of(rr)
         if succ and is_var(l, succ) and c == 0 and op in ('==', '!='):
             return st.copy(snull=(op == '=='))
+        if is_var(l) and c == 0 and op in ('==', '!=') and (l['name'] + '#idx') in dict(st.K):
+            found = dict(st.K)[l['name'] + '#idx'] >= 0
+            return st if found == (op == '!=') else None
         st2, is_s = subject(l, st)
         if is_s and isinstance(c, int) and op in ('==', '!=', '<', '<=', '>', '>='):
             return refine(st2, op, c & 255 if c >= 0 else c)
@@ -180,6 +196,8 @@ def analyse(fn, accepted):
         c = const_of(e)
         if isinstance(c, int):
             return 'T' if c else 'F'
+        if is_var(e) and e['name'] in dict(st.K):
+            return 'T' if dict(st.K)[e['name']] else 'F'
         if isinstance(e, dict) and e.get('k') == 'bin' and e.get('op') in ('==', '!=') and isinstance(const_of(e.get('r')), int):
             st2, is_s = subject(e['l'], st)
             if is_s:
@@ -216,11 +234,37 @@ def analyse(fn, accepted):
                 K = tuple(x for x in st.K if x[0] != v)
                 H = st.H - {v}
                 st = st.copy(K=K, H=H)
+                if ev.get('op') == '=' and isinstance(rhs, dict) and rhs.get('k') == 'callref' and rhs.get('callee') == 'strchr' and len(rhs.get('args', [])) == 2 and table_of(rhs['args'][0]) is not None:
+                    # a table lookup of the examined character: one state per entry it can be, one for "not in the table"
+                    tab = table_of(rhs['args'][0])
+                    st2, is_s = subject(rhs['args'][1], st)
+                    if is_s:
+                        outs = []
+                        for i, chh in enumerate(tab):
+                            if ord(chh) in st2.C:
+                                outs.append(judge(st2.copy(C=frozenset([ord(chh)]), K=tuple(sorted(tuple(x for x in st2.K if x[0] != v + '#idx') + ((v + '#idx', i),))))))
+                        if 0 in st2.C:
+                            outs.append(judge(st2.copy(C=frozenset([0]), K=tuple(sorted(tuple(x for x in st2.K if x[0] != v + '#idx') + ((v + '#idx', len(tab)),))))))
+                        rest = st2.C - frozenset(ord(x) for x in tab) - frozenset([0])
+                        if rest:
+                            outs.append(judge(st2.copy(C=frozenset(rest), K=tuple(sorted(tuple(x for x in st2.K if x[0] != v + '#idx') + ((v + '#idx', -1),))))))
+                        return outs
                 if ev.get('op') == '=':
                     st2, is_s = subject(rhs, st) if isinstance(rhs, dict) else (st, False)
                     if is_s:
                         return st2.copy(H=st2.H | {v})
                     c = const_of(rhs)
+                    if c is None and is_var(rhs) and rhs['name'] in dict(st0.K):
+                        c = dict(st0.K)[rhs['name']]         # a copy of a local whose value is known
+                    if c is None and isinstance(rhs, dict) and rhs.get('k') == 'cond':
+                        # `cond ? a : b` with constant arms and a condition over a known counter
+                        cc = rhs.get('c')
+                        if isinstance(cc, dict) and cc.get('k') == 'bin' and cc.get('op') in ('==', '!=', '<', '<=', '>', '>=') and isinstance(const_of(cc.get('r')), int):
+                            kv = kval(cc.get('l'), st0)
+                            if kv is not None:
+                                k2 = const_of(cc['r'])
+                                truth = {'==': kv == k2, '!=': kv != k2, '<': kv < k2, '<=': kv <= k2, '>': kv > k2, '>=': kv >= k2}[cc['op']]
+                                c = const_of(rhs.get('t') if truth else rhs.get('f'))
                     if isinstance(c, int) and abs(c) < 1 << 40:
                         return st.copy(K=tuple(sorted(st.K + ((v, c),))))
                 if ev.get('op') == '+=' and isinstance(rhs, dict):
@@ -243,13 +287,27 @@ def analyse(fn, accepted):
 
 
 def subst_consts(e, K):
+    """e with known locals replaced by their values, `p - table` by the index p was found at, and constant
+    sub-expressions folded"""
     d = dict(K)
     if not isinstance(e, dict):
         return e
     if e.get('k') == 'var' and e['name'] in d:
         return {'k': 'int', 'v': d[e['name']]}
+    if e.get('k') == 'bin' and e.get('op') == '-' and is_var(e.get('l')) and (e['l']['name'] + '#idx') in d and is_var(e.get('r')):
+        return {'k': 'int', 'v': d[e['l']['name'] + '#idx']}
     out = dict(e)
     for k in ('l', 'r', 'e'):
         if isinstance(e.get(k), dict):
             out[k] = subst_consts(e[k], K)
+    if out.get('k') == 'cast' and isinstance(out.get('e'), dict) and out['e'].get('k') == 'int':
+        return out['e']
+    if out.get('k') == 'bin' and isinstance(out.get('l'), dict) and isinstance(out.get('r'), dict) and out['l'].get('k') == 'int' and out['r'].get('k') == 'int':
+        a_, b_ = out['l']['v'], out['r']['v']
+        try:
+            v = {'+': a_ + b_, '-': a_ - b_, '*': a_ * b_, '/': (a_ // b_ if b_ else None), '%': (a_ % b_ if b_ else None), '<<': (a_ << b_ if 0 <= b_ < 64 else None), '>>': (a_ >> b_ if 0 <= b_ < 64 else None)}.get(out['op'])
+        except Exception:
+            v = None
+        if v is not None:
+            return {'k': 'int', 'v': v}
     return out
